@@ -176,6 +176,8 @@ type vfProvider struct {
 	issuer     string
 	clientID   string
 	endSession bool
+	revocation string // "" none | ok | fail (set before the first discovery request)
+	revokeHits int
 	codes      map[string]*vfAuthReq
 	codeSeq    int
 	rtSeq      int
@@ -215,6 +217,9 @@ func vfNewProvider(clientID string, endSession bool, r *vfRand) *vfProvider {
 		if p.endSession {
 			doc["end_session_endpoint"] = p.issuer + "/logout"
 		}
+		if p.revocation != "" {
+			doc["revocation_endpoint"] = p.issuer + "/revoke"
+		}
 		w.Header().Set("Content-Type", "application/json")
 		json.NewEncoder(w).Encode(doc)
 	})
@@ -229,6 +234,17 @@ func vfNewProvider(clientID string, endSession bool, r *vfRand) *vfProvider {
 		json.NewEncoder(w).Encode(map[string]interface{}{"keys": []interface{}{jwk}})
 	})
 	mux.HandleFunc("/token", p.handleToken)
+	mux.HandleFunc("/revoke", func(w http.ResponseWriter, req *http.Request) {
+		p.mu.Lock()
+		p.revokeHits++
+		mode := p.revocation
+		p.mu.Unlock()
+		if mode == "ok" {
+			w.WriteHeader(200)
+			return
+		}
+		http.Error(w, "revocation unavailable", http.StatusServiceUnavailable)
+	})
 	p.srv = httptest.NewServer(mux)
 	p.issuer = p.srv.URL
 	return p
